@@ -2,7 +2,7 @@
 """C15: rolling log files keep the most recent messages, complete and in order; no generation exceeds its
 limit; a new generation is started only when the next message would exceed it (incl. restarts and crashes
 inside a roll-over)."""
-import json, os, shutil, sys
+import concurrent.futures, json, os, shutil, sys
 sys.path.insert(0, os.path.join(os.path.dirname(os.path.abspath(__file__)), "..", "tools"))
 from vlib import *
 
@@ -40,17 +40,52 @@ def run(tier):
         require_edges(edges, "MCLogRolling")
     # ... and every outcome the specification allows (properties only)
     c.model(spec, "MCLogRolling", "MCLogRolling_%s_any.cfg" % tier, want_edges=False, must_take=must)
-    # R: every generated transition on the real policies and real files
+    # R: every generated transition on the real policies and real files; the replay sequences are split over
+    # several driver processes (own scratch directory each), every part is validated on its own
     seqs, nedges, nstates, unreach = cover(edges)
-    script = os.path.join(c.wd, "script.ndjson")
-    write_script(seqs, script)
     c.notes.append("LogRolling: %d distinct edges over %d states (up to message ids) covered by %d replay sequences"
                    % (nedges, nstates, len(seqs)))
-    tr = os.path.join(c.wd, "replay.ndjson")
-    d1 = scratch("R")
-    c.drive(exe, ["--dir", d1, "--script", script], tr, "R", timeout=900)
-    shutil.rmtree(d1, ignore_errors=True)
-    c.validate(spec, "TraceLogRolling", "TraceLogRolling.cfg", tr, "R")
+    nparts = max(1, min(NCPU, len(seqs) // 2000 + 1))
+    total = sum(len(q) + 1 for q in seqs)
+    parts, acc = [[] for _ in range(nparts)], 0
+    for q in seqs:
+        parts[min(nparts - 1, acc * nparts // max(total, 1))].append(q)
+        acc += len(q) + 1
+    parts = [q for q in parts if q]
+
+    def replay(i):
+        script = os.path.join(c.wd, "script_%d.ndjson" % i)
+        write_script(parts[i], script)
+        tr = os.path.join(c.wd, "replay_%d.ndjson" % i)
+        d = scratch("R%d" % i)
+        c.drive(exe, ["--dir", d, "--script", script], tr, "R", timeout=1200)
+        shutil.rmtree(d, ignore_errors=True)
+        os.remove(script)
+        return tr
+    with concurrent.futures.ThreadPoolExecutor(len(parts)) as ex:
+        traces = list(ex.map(replay, range(len(parts))))
+    # validate in groups of at most ~1.2 million events (one TLC process per shard inside validate)
+    groups, cur, cur_n = [], [], 0
+    for tr in traces:
+        with open(tr, "rb") as f:
+            n = sum(1 for _ in f)
+        if cur and cur_n + n > 1200000:
+            groups.append(cur)
+            cur, cur_n = [], 0
+        cur.append(tr)
+        cur_n += n
+    if cur:
+        groups.append(cur)
+    for gi, grp in enumerate(groups):
+        allp = os.path.join(c.wd, "replay_all_%d.ndjson" % gi)
+        with open(allp, "wb") as fo:
+            for tr in grp:
+                with open(tr, "rb") as f:
+                    shutil.copyfileobj(f, fo)
+                os.remove(tr)
+        c.validate(spec, "TraceLogRolling", "TraceLogRolling.cfg", allp, "R")
+        if tier == "thorough" and not c.violations:
+            os.remove(allp)          # hundreds of MB; kept only when something was rejected
     # T: long random histories, larger limits, restarts and rename-level crashes
     cases = 40 if tier == "quick" else 600
     tr2 = os.path.join(c.wd, "random.ndjson")
